@@ -161,8 +161,15 @@ class Sib:
                 fb = g.number(b)
         except TooBig:
             raise AnalysisError(f"{construct}: value numbering exceeded its budget")
-        ok = f_key(fa) == f_key(fb)
+        from .gvn import compare_forms
+        verdict = compare_forms(g, fa, fb)
+        ok = verdict != "differ"
         msg = "equal value numbers" + (f" ({what})" if what else "")
+        if verdict == "undecided":
+            msg = ("undecided: the two copies are written with different operations (value numbering does not relate "
+                   "them); no claim")
+            self.ctx.rep.count("undecided_comparisons")
+            self.ctx.rep.note(f"{construct}: {msg}")
         if not ok:
             da = {k_: v for k_, v in fa.items() if fb.get(k_) != v}
             db = {k_: v for k_, v in fb.items() if fa.get(k_) != v}
@@ -267,8 +274,8 @@ class Sib:
         """SIB-2 inside one class: <L_g> = tr(G L_g) appears twice, as the force bias and as the Coulomb trace whose
         square enters the two-body energy; the two hand-written contractions must be the same function of walker and
         integrals (times 2 where one spatial Green's function stands for both spins)."""
-        from ..symex import match_vmap, strip_wrappers, subterms
-        from .gvn import ZERO, c_add, c_mul
+        from ..symex import func_name, match_vmap, strip_wrappers, subterms
+        from .gvn import ZERO, c_add, c_mul, compare_forms
         table = (("ghf", "_calc_force_bias", "_calc_energy", 1), ("uhf", "_calc_force_bias", "_calc_energy", 1),
                  ("rhf", "_calc_force_bias_restricted", "_calc_energy_restricted", 2))
         for cls, fbm, enm, factor in table:
@@ -279,7 +286,12 @@ class Sib:
                 if vm is not None and vm[0].op == "name" and vm[0].args[0].split(".")[-1] == "trace" and x not in traces:
                     traces.append(x)
             if not traces:
-                raise AnalysisError(f"{cls}.{enm}: Coulomb traces vmap(trace)(...) not found")
+                for x in subterms(en.result):
+                    if x.op == "call" and (func_name(x) or "").split(".")[-1] == "trace" and x not in traces:
+                        traces.append(x)
+            if not traces:
+                self.ctx.rep.note(f"{cls}.{enm}: no Coulomb trace found in the energy; the force-bias sibling rule does not apply")
+                continue
             g = GVN(self.ev)
             try:
                 a = g.number(fb.result)
@@ -291,9 +303,12 @@ class Sib:
                 raise AnalysisError(f"{cls}: value numbering exceeded its budget")
             from fractions import Fraction
             scaled = {k_: c_mul(v, (Fraction(factor), Fraction(0))) for k_, v in tot.items()}
-            ok = f_key(a) == f_key(scaled)
+            verdict = compare_forms(g, a, scaled)
+            ok = verdict != "differ"
+            if verdict == "undecided":
+                self.ctx.rep.count("undecided_comparisons")
             self.ctx.ob("SIB-2", f"{cls}.{fbm} == {factor} x (sum of the Coulomb traces of {enm})", ok,
-                        "equal value numbers" if ok else
+                        ("equal value numbers" if verdict == "equal" else "undecided: written with different operations; no claim") if ok else
                         f"force bias {g.describe(a)[:160]}  vs  energy's traces {g.describe(scaled)[:160]}", fb.fi)
 
     def noci_trans_rdm1_symmetry(self):
